@@ -11,14 +11,31 @@ TRUSTED_BASE = [
     "fresh object for the snapshot the model says the cache came from and compares numerically (rtol 1e-9)",
     "side conversions of the cached PSD are abstracted to (snapshot, representation) pairs: path independence is C06's theorem",
     "the internal `modified` flag is part of the model state but is not a compared observable",
+    "operations outside the model's own grammar are sent as the model operation with the same effect on the state machine: "
+    "`p.data = list(...)` as setData, `p.get_converted_psd(s)` as read (it brings the estimate up to date and leaves the object "
+    "otherwise unchanged; the returned array is compared with the fresh object's conversion), `pcorrelogram.data_y = y` as the "
+    "unguarded order setter (the order slot, unused by that class, holds the data_y identifier: an unguarded setter that marks the "
+    "object modified); the oracle evaluates the same histories on the real code alone",
 ]
 PARTIAL = []
 ASSUMPTIONS = ["fresh objects are built with the final attribute values, NFFT being the object's resolved integer NFFT",
-               "attributes listed by the property: data, NFFT, sampling, window, lag, detrend, scale_by_freq, sides, model orders"]
-RULE = ("operation sequences over each estimator class, real and complex start data: exhaustive to length 2 (quick) / 3 (thorough) "
-        "over the class's alphabet of 18-22 setter/call/read operations, plus random sequences of length <= 12; after every operation "
-        "sides, NFFT, df, len(frequencies()) are compared with the model, and every psd read with a fresh object; "
-        "non-trivial = sequence with at least one read after a setter")
+               "attributes listed by the property: data (array or list; data_y for the cross-correlogram), NFFT, sampling, window, "
+               "lag, detrend, scale_by_freq, sides, model orders",
+               "a recomputation resets `sides` to the default representation: the fresh object is compared in the `sides` the object "
+               "reports after the read, and len(frequencies()) is compared BEFORE a read only when no recomputation is pending",
+               "detrend='mean' has no numerical effect on any estimator class, so a stale and a fresh estimate cannot be told apart "
+               "after a detrend assignment alone (such histories are tagged, nothing more is asserted about them)",
+               "data_y histories keep the data length fixed (cross-correlation of equal-length sequences)"]
+RULE = ("operation sequences over each estimator class (12, pev included; MultiTapering with unity / adapt / eigen weighting), real "
+        "and complex start data of length 20, 23 and the powers of two 16, 32, over the class's alphabet of 30-36 setter/call/read "
+        "operations (core alphabet of 19-23, plus: every attribute set back to its start value, a third sampling rate / window, "
+        "NFFT below, at and above the data length, power-of-two data, list-valued data, get_converted_psd reads; data_y for "
+        "pcorrelogram).  quick: exhaustive length 1 (whole alphabet), length 2 over the core alphabet for three classes, sampled "
+        "pairs otherwise; thorough: exhaustive length 2 (whole alphabet, every class), length 3 over the core alphabet for four "
+        "classes, sampled length 3 over the whole alphabet; both: away / read / back / read patterns for every attribute, random "
+        "sequences of length <= 12.  After every operation sides, NFFT, df, len(frequencies()) are compared with the model, and every "
+        "psd / get_converted_psd read with a fresh object; the oracle re-assigns every attribute (guarded and unguarded setters) "
+        "with its current value; non-trivial = sequence with at least one read after a setter")
 
 SIDE_CODE = {"onesided": 1, "twosided": 2, "centerdc": 3}
 CODE_SIDE = {v: k for k, v in SIDE_CODE.items()}
@@ -35,6 +52,21 @@ DATA = {
     2: _rng.standard_normal(_N1) + np.cos(0.5 * _t1),
     3: _rng.standard_normal(_N1) + 1j * _rng.standard_normal(_N1) + np.exp(0.7j * _t1),
 }
+# data lengths that are exact powers of two ('nextpow2' leaves NFFT = N) - drawn from a separate stream so that DATA[0..3] keep
+# their values
+_rng2 = np.random.default_rng(70)
+DATA.update({
+    4: _rng2.standard_normal(16) + np.cos(0.9 * np.arange(16)),
+    5: _rng2.standard_normal(32) + 1j * _rng2.standard_normal(32) + np.exp(0.7j * np.arange(32)),
+    6: _rng2.standard_normal(16) + 1j * _rng2.standard_normal(16) + np.exp(0.4j * np.arange(16)),
+    7: _rng2.standard_normal(32) + np.cos(0.5 * np.arange(32)),
+})
+# second sequences for the cross-correlogram (`pcorrelogram.data_y`), same length as DATA[0] / DATA[1]; 0 stands for None
+DATAY = {
+    1: _rng2.standard_normal(_N0) + np.cos(0.9 * _t0 + 0.3),
+    2: _rng2.standard_normal(_N0) + np.sin(0.5 * _t0),
+}
+MT_METHODS = ("unity", "adapt", "eigen")
 
 CLS = {
     # name: (parametric?, attributes the constructor takes)
@@ -48,6 +80,7 @@ CLS = {
     "pma": (True, ("ar", "ma")),
     "pminvar": (True, ("ar",)),
     "pmusic": (True, ("ar",)),
+    "pev": (True, ("ar",)),
     "MultiTapering": (False, ()),
 }
 
@@ -57,15 +90,21 @@ def _sp():
     return spectrum
 
 
-def build(cls, a):
-    """construct the estimator object for an attribute snapshot (dict)"""
+def build(cls, a, mt="unity"):
+    """construct the estimator object for an attribute snapshot (dict); `mt` is the MultiTapering weighting (a constructor option
+    that no operation changes)"""
     sp = _sp()
     x = DATA[a["dataId"]]
     kw = dict(NFFT=a["nfft"], sampling=SAMP[a["samp"]], scale_by_freq=bool(a["scale"]))
     if cls == "Periodogram":
         return sp.Periodogram(x, window=WINDOWS[a["window"]], detrend=DETREND[a["detrend"]], **kw)
     if cls == "pcorrelogram":
-        return sp.pcorrelogram(x, lag=a["lag"], window=WINDOWS[a["window"]], detrend=DETREND[a["detrend"]], **kw)
+        o = sp.pcorrelogram(x, lag=a["lag"], window=WINDOWS[a["window"]], detrend=DETREND[a["detrend"]], **kw)
+        if a.get("ar", 0):
+            # the constructor has no data_y argument: a fresh cross-correlogram is an object whose data_y is assigned before any
+            # computation (the `ar` slot of the snapshot holds the data_y identifier for this class)
+            o.data_y = DATAY[a["ar"]].copy()
+        return o
     if cls == "pburg":
         return sp.pburg(x, a["ar"], **kw)
     if cls == "pyule":
@@ -82,8 +121,10 @@ def build(cls, a):
         return sp.pminvar(x, a["ar"], **kw)
     if cls == "pmusic":
         return sp.pmusic(x, a["ar"], NSIG=2, **kw)
+    if cls == "pev":
+        return sp.pev(x, a["ar"], NSIG=2, **kw)
     if cls == "MultiTapering":
-        return sp.MultiTapering(x, NW=2.5, k=4, method="unity", **kw)
+        return sp.MultiTapering(x, NW=2.5, k=4, method=mt, **kw)
     raise ValueError(cls)
 
 
@@ -93,12 +134,14 @@ def init_attrs(cls, dataId):
          "window": 0, "lag": 6, "ar": 4, "ma": 2}
     if cls == "pma":
         a["ar"] = 6   # pma(data, Q, M): ar_order holds M
-    if cls == "pmusic":
+    if cls in ("pmusic", "pev"):
         a["ar"] = 6
+    if cls == "pcorrelogram":
+        a["ar"] = 0   # the slot holds the data_y identifier: None at construction
     return a
 
 
-def alphabet(cls):
+def alphabet_core(cls):
     par, has = CLS[cls]
     ops = [("data", 0), ("data", 1), ("data", 2), ("data", 3), ("nfft", 32), ("nfft", 33), ("nfft", None), ("nfft", "nextpow2"),
            ("samp", 1), ("samp", 0), ("detrend", 1), ("scale", 1), ("scale", 0),
@@ -108,17 +151,69 @@ def alphabet(cls):
     if "lag" in has:
         ops.append(("lag", 7))
     if "ar" in has:
-        ops.append(("ar", 5 if cls not in ("pma", "pmusic") else 7))
+        ops.append(("ar", 5 if cls not in ("pma", "pmusic", "pev") else 7))
         ops.append(("ar", init_attrs(cls, 0)["ar"]))
     if "ma" in has:
         ops.append(("ma", 3))
     return ops
 
 
+def alphabet_ext(cls):
+    """values back to the start value, a third sampling rate / window, NFFT below the data length (15, 16 against N = 20, 23, 32),
+    data whose length is a power of two, list-valued data, reads through get_converted_psd"""
+    par, has = CLS[cls]
+    ops = [("detrend", 0), ("samp", 2), ("nfft", 16), ("nfft", 15), ("data", 4), ("data", 5), ("datalist", 2), ("datalist", 1),
+           ("cread", "centerdc"), ("cread", "twosided"), ("cread", "onesided")]
+    if "window" in has:
+        ops += [("window", 0), ("window", 2)]
+    if "lag" in has:
+        ops.append(("lag", 6))
+    if "ma" in has:
+        ops.append(("ma", 2))
+    return ops
+
+
+def alphabet(cls):
+    return alphabet_core(cls) + alphabet_ext(cls)
+
+
+def toggles(cls):
+    """(away, back) pairs: `back` restores the value the object was constructed with; ("data", None) = the start data"""
+    par, has = CLS[cls]
+    t = [(("samp", 1), ("samp", 0)), (("samp", 2), ("samp", 0)), (("detrend", 1), ("detrend", 0)), (("scale", 1), ("scale", 0)),
+         (("nfft", 32), ("nfft", None)), (("nfft", 15), ("nfft", None)), (("nfft", "nextpow2"), ("nfft", 20)),
+         (("data", 2), ("data", None)), (("datalist", 3), ("data", None)), (("data", 4), ("data", None))]
+    if "window" in has:
+        t += [(("window", 1), ("window", 0)), (("window", 2), ("window", 0))]
+    if "lag" in has:
+        t.append((("lag", 7), ("lag", 6)))
+    if "ar" in has:
+        t.append((("ar", 5 if cls not in ("pma", "pmusic", "pev") else 7), ("ar", init_attrs(cls, 0)["ar"])))
+    if "ma" in has:
+        t.append((("ma", 3), ("ma", 2)))
+    return t
+
+
+def alphabet_datay(cls):
+    """pcorrelogram with a second sequence: the data keep their length (20)"""
+    assert cls == "pcorrelogram"
+    keep = [op for op in alphabet(cls) if not (op[0] in ("data", "datalist") and len(DATA[op[1]]) != _N0)]
+    return keep, [("data_y", 1), ("data_y", 2), ("data_y", 0)]
+
+
+def cread_side(p, v):
+    """the representation actually requested by a ("cread", v) operation: a complex estimate has no one-sided form"""
+    return "centerdc" if (v == "onesided" and np.iscomplexobj(p.data)) else v
+
+
 def apply_op(p, op):
     k, v = op
     if k == "data":
         p.data = DATA[v]
+    elif k == "datalist":
+        p.data = list(DATA[v])
+    elif k == "data_y":
+        p.data_y = None if v == 0 else DATAY[v].copy()
     elif k == "nfft":
         p.NFFT = v
     elif k == "samp":
@@ -141,31 +236,49 @@ def apply_op(p, op):
         p()
     elif k == "read":
         return np.array(p.psd)
+    elif k == "cread":
+        return np.array(p.get_converted_psd(cread_side(p, v)))
+    else:
+        raise ValueError(op)
     return None
 
 
 def op_token(op):
+    """the model operation (driver `objhist` grammar) with the same effect on the attribute-and-cache state machine"""
     k, v = op
-    if k == "data":
+    if k in ("data", "datalist"):
         return "data:%d:%d:%d" % (v, int(np.iscomplexobj(DATA[v])), len(DATA[v]))
+    if k == "data_y":
+        return "ar:%d" % v
     if k == "nfft":
         return "nfftnone" if v is None else ("nfftpow2" if v == "nextpow2" else "nfft:%d" % v)
     if k == "sides":
         return "sides:%s" % v
     if k in ("call", "read"):
         return k
+    if k == "cread":
+        return "read"
     return "%s:%d" % (k, v)
+
+
+def op_name(op):
+    """display / key name of an operation (distinguishes the operations that share a model token)"""
+    k, v = op
+    if k in ("datalist", "data_y", "cread"):
+        return "%s:%s" % (k, v)
+    return op_token(op)
 
 
 def impl_hist(p):
     cls = p["cls"]
     a0 = init_attrs(cls, p["data0"])
-    o = build(cls, a0)
+    o = build(cls, a0, p.get("mt", "unity"))
     obs = []
     ncall = 0
     for op in p["ops"]:
         err = 0
         psd = None
+        cside = cread_side(o, op[1]) if op[0] == "cread" else None
         try:
             if op[0] == "call":
                 ncall += 1
@@ -176,7 +289,7 @@ def impl_hist(p):
         except AssertionError:
             err = 1
         obs.append({"err": err, "sides": SIDE_CODE[o.sides], "nfft": o.NFFT, "df": o.df, "flen": len(o.frequencies()), "psd": psd,
-                    "sampling": o.sampling})
+                    "sampling": o.sampling, "cside": cside})
     return obs
 
 
@@ -193,8 +306,10 @@ FIELDS = ["dataId", "cplx", "N", "nfft", "samp", "detrend", "scale", "window", "
 
 def post_hist(p, iv, mv):
     """turn both sides into comparable vectors: per op [err, sides, NFFT, df, len(frequencies())] and, for reads, the psd of a fresh
-    object built from the snapshot the model says the cache holds, in the representation the model says it is stored in"""
+    object built from the snapshot the model says the cache holds, in the representation the model says it is stored in (for a
+    get_converted_psd read: that fresh object's conversion to the requested representation)"""
     cls = p["cls"]
+    mt = p.get("mt", "unity")
     I, M = [], []
     for (op, o, m) in zip(p["ops"], iv, mv):
         m = [int(v) for v in m]
@@ -204,49 +319,129 @@ def post_hist(p, iv, mv):
         cside = m[18]
         I.append(np.array([o["err"], o["sides"], o["nfft"], o["df"], o["flen"]], dtype=float))
         M.append(np.array([err, sides, nfft, SAMP[rangeSamp] / rangeN, flen], dtype=float))
-        if op[0] == "read" and o["psd"] is not None and valid:
-            f = build(cls, snap)
+        if op[0] in ("read", "cread") and o["psd"] is not None and valid:
+            f = build(cls, snap, mt)
             _ = f.psd                      # compute first: assigning sides before any computation does not convert
             f.sides = CODE_SIDE[cside]
             I.append(np.asarray(o["psd"], dtype=float))
-            M.append(np.asarray(f.psd, dtype=float))
+            if op[0] == "read":
+                M.append(np.asarray(f.psd, dtype=float))
+            else:
+                M.append(np.asarray(f.get_converted_psd(o["cside"]), dtype=float))
     return I, M
 
 
+def _fresh(cls, a, o, mt):
+    """a freshly constructed object with the attribute values `a` (NFFT: the resolved integer of `o`), its estimate brought to the
+    representation `o` reports; raises AssertionError when `o` reports a representation the data type cannot have"""
+    a2 = dict(a)
+    a2["nfft"] = o.NFFT
+    a2["cplx"] = int(np.iscomplexobj(DATA[a2["dataId"]]))
+    f = build(cls, a2, mt)
+    exp = np.array(f.psd)
+    if f.sides != o.sides:
+        f.sides = o.sides
+        exp = np.array(f.psd)
+    return f, exp, a2
+
+
+def _reassign_unguarded(o, cls, variant):
+    """assign their current values again through the setters that have no equality guard"""
+    has = CLS[cls][1]
+    if variant == 0:
+        o.data = o.data                          # the same array object
+    elif variant == 1:
+        o.data = np.array(o.data, copy=True)     # an equal copy
+    else:
+        o.data = list(o.data)                    # an equal list
+    if "ar" in has:
+        o.ar_order = o.ar_order
+    if "ma" in has:
+        o.ma_order = o.ma_order
+    if "lag" in has:
+        o.lag = o.lag
+    if cls == "pcorrelogram":
+        o.data_y = o.data_y
+
+
 def oracle_hist(p):
-    """the property statement on the real code alone: after the history, psd equals that of a fresh object with the final attribute
-    values; df = sampling/NFFT; len(frequencies()) = len(psd)"""
+    """the property statement on the real code alone: after the history (and at every read inside it), psd equals that of a fresh
+    object with the current attribute values; df = sampling/NFFT; len(frequencies()) = len(psd); re-assignment changes nothing"""
     cls = p["cls"]
+    mt = p.get("mt", "unity")
     a = dict(init_attrs(cls, p["data0"]))
-    o = build(cls, a)
+    o = build(cls, a, mt)
     out = []
+    nops = len(p["ops"])
+    tag = "%s%s, start data %d, history %s" % (cls, "" if mt == "unity" else "(method=%s)" % mt, p["data0"],
+                                               [op_name(op) for op in p["ops"]])
+    # `clean`: an estimate has been computed and no attribute assignment happened since (no recomputation is pending); a sides
+    # assignment on such an object converts the stored estimate and keeps it up to date
+    clean = False
     try:
-        for op in p["ops"]:
+        for i, op in enumerate(p["ops"]):
+            k, v = op
+            f0 = len(o.frequencies()) if (k in ("read", "cread") and clean) else None
+            sides0 = o.sides
             try:
-                apply_op(o, op)
+                r = apply_op(o, op)
             except AssertionError:
                 if not (op[0] == "sides" and op[1] == "onesided" and np.iscomplexobj(o.data)):
                     return ["history %s raised AssertionError at %s" % (p["ops"], op)]
+                clean = False
                 continue
-            k, v = op
-            if k == "data":
+            if k in ("data", "datalist"):
                 a["dataId"] = v
+            elif k == "data_y":
+                a["ar"] = v
             elif k in ("samp", "detrend", "scale", "window", "lag", "ar", "ma"):
                 a[k] = v
+            elif k == "nfft":
+                # the value the assignment resolves to (what a fresh object given the same NFFT argument on these data gets):
+                # None -> the data length, 'nextpow2' -> the smallest power of two >= the data length
+                n_data = len(DATA[a["dataId"]])
+                want = n_data if v is None else ((1 << (n_data - 1).bit_length()) if v == "nextpow2" else int(v))
+                if o.NFFT != want or abs(o.df - o.sampling / want) > 1e-12 * abs(o.sampling / want):
+                    out.append("after NFFT = %r on %d samples: NFFT = %r (expected %d), df = %r (%s)" % (
+                        v, n_data, o.NFFT, want, o.df, tag))
+            if k in ("read", "cread"):
+                n_psd = len(o.psd)
+                if len(o.frequencies()) != n_psd:
+                    out.append("after operation %d (%s): len(frequencies()) = %d != len(psd) = %d (%s)" % (
+                        i, op_name(op), len(o.frequencies()), n_psd, tag))
+                if f0 is not None and (f0 != n_psd or o.sides != sides0):
+                    out.append("operation %d (%s) on an up-to-date object: len(frequencies()) was %d (sides %s) before the read, psd "
+                               "has %d values (sides %s) (%s)" % (i, op_name(op), f0, sides0, n_psd, o.sides, tag))
+                if k == "cread" or i < nops - 1:
+                    # reads inside the history (the final state is compared below)
+                    try:
+                        f, exp, _a2 = _fresh(cls, a, o, mt)
+                    except AssertionError:
+                        return ["object reports sides=%s for %s data after %s" % (
+                            o.sides, "complex" if np.iscomplexobj(o.data) else "real", p["ops"][:i + 1])]
+                    if k == "cread":
+                        sd = cread_side(o, v)
+                        exp = np.asarray(f.get_converted_psd(sd))
+                        what = "get_converted_psd('%s')" % sd
+                    else:
+                        what = "psd"
+                    if r is None or np.asarray(r).shape != exp.shape or rel(np.asarray(r), exp) > 1e-9:
+                        out.append("%s at operation %d is stale: differs from a freshly constructed object with the same attribute "
+                                   "values (%s)" % (what, i, tag))
+                clean = True
+            elif k == "call":
+                clean = True
+            elif k == "sides":
+                pass                  # converts an up-to-date estimate in place; a pending recomputation stays pending here
+            else:
+                clean = False
         got = np.array(o.psd)
     except Exception as e:
         return ["history %s on %s raised %r" % (p["ops"], cls, e)]
-    a["nfft"] = o.NFFT
-    a["cplx"] = int(np.iscomplexobj(DATA[a["dataId"]]))
-    f = build(cls, a)
-    exp = np.array(f.psd)
-    if f.sides != o.sides:
-        try:
-            f.sides = o.sides
-            exp = np.array(f.psd)
-        except AssertionError:
-            return ["object reports sides=%s for %s data after %s" % (o.sides, "complex" if a["cplx"] else "real", p["ops"])]
-    tag = "%s, start data %d, history %s" % (cls, p["data0"], [op_token(op) for op in p["ops"]])
+    try:
+        f, exp, a = _fresh(cls, a, o, mt)
+    except AssertionError:
+        return ["object reports sides=%s for %s data after %s" % (o.sides, "complex" if np.iscomplexobj(o.data) else "real", p["ops"])]
     if got.shape != exp.shape or rel(got, exp) > 1e-9:
         out.append("psd is stale: differs from a freshly constructed object with the same final attribute values (%s)" % tag)
     if abs(o.df - o.sampling / o.NFFT) > 1e-12 * abs(o.sampling / o.NFFT):
@@ -266,12 +461,38 @@ def oracle_hist(p):
     after = np.array(o.psd)
     if o.sides != sides_before or after.shape != before.shape or rel(after, before) > 1e-12:
         out.append("re-assigning unchanged values altered the result (%s)" % tag)
+    # ... nor does it through the setters without an equality guard (data: the same array object, an equal copy, an equal list;
+    # model orders; lag; data_y).  These trigger a recomputation, which resets `sides` to the default representation: from a
+    # non-default representation the estimate is compared after conversion back, from the default one nothing may change at all
+    if not out:
+        variants = (0, 1 + nops % 2) if (nops + p["data0"]) % 2 == 0 else (1 + nops % 2, 0)
+        for step, variant in enumerate(variants):
+            if step == 1 and o.sides != o._default_sides():
+                o.sides = "default"
+            before = np.array(o.psd)
+            sides_before, nfft_before, df_before = o.sides, o.NFFT, o.df
+            dflt = "twosided" if np.iscomplexobj(o.data) else "onesided"
+            _reassign_unguarded(o, cls, variant)
+            after = np.array(o.psd)
+            how = ["the same array object", "an equal copy", "an equal list"][variant]
+            if o.NFFT != nfft_before or o.df != df_before:
+                out.append("re-assigning data (%s) / orders / lag changed NFFT or df (%s)" % (how, tag))
+            if sides_before == dflt:
+                if o.sides != sides_before or after.shape != before.shape or rel(after, before) > 1e-12:
+                    out.append("re-assigning data (%s) / orders / lag with their current values altered the result (%s)" % (how, tag))
+            else:
+                conv = np.asarray(o.get_converted_psd(sides_before))
+                if conv.shape != before.shape or rel(conv, before) > 1e-12:
+                    out.append("re-assigning data (%s) / orders / lag with their current values altered the estimate (compared in "
+                               "the %s representation) (%s)" % (how, sides_before, tag))
+            if len(o.frequencies()) != len(after):
+                out.append("len(frequencies()) = %d != len(psd) = %d after re-assignment (%s)" % (len(o.frequencies()), len(after), tag))
     if not out and (len(p["ops"]) + 2 * p["data0"]) % 3 != 1:
         # the other way of reading the estimate: get_converted_psd(sides) straight after the history (no psd read before it)
-        o2 = build(cls, dict(init_attrs(cls, p["data0"])))
+        o2 = build(cls, dict(init_attrs(cls, p["data0"])), mt)
         ok = True
         for op in p["ops"]:
-            if op[0] == "read":
+            if op[0] in ("read", "cread"):
                 continue
             try:
                 apply_op(o2, op)
@@ -283,7 +504,7 @@ def oracle_hist(p):
             sides_ok = ["twosided", "centerdc"] + ([] if a["cplx"] else ["onesided"])
             sd = sides_ok[(len(p["ops"]) + len(cls)) % len(sides_ok)]
             got_c = o2.get_converted_psd(sd)
-            f2 = build(cls, a)
+            f2 = build(cls, a, mt)
             _ = f2.psd
             exp_c = np.asarray(f2.get_converted_psd(sd))
             if got_c is None or np.asarray(got_c).shape != exp_c.shape or rel(np.asarray(got_c), exp_c) > 1e-9:
@@ -303,7 +524,7 @@ def oracle_hist(p):
         got3 = np.array(o.psd)
         DATA[99] = np.array(o.data, copy=True)
         try:
-            f3 = build(cls, dict(a, dataId=99))
+            f3 = build(cls, dict(a, dataId=99), mt)
             exp3 = np.array(f3.psd)
             if f3.sides != o.sides:
                 f3.sides = o.sides
@@ -317,48 +538,173 @@ def oracle_hist(p):
 
 
 def _key(p):
-    return "%s|%d|%s" % (p["cls"], p["data0"], [op_token(o) for o in p["ops"]])
+    return "%s%s|%d|%s" % (p["cls"], "" if p.get("mt", "unity") == "unity" else ":" + p["mt"], p["data0"],
+                           [op_name(o) for o in p["ops"]])
 
 
 def _nontrivial(p):
     ks = [o[0] for o in p["ops"]]
-    return any(k not in ("read", "call") for k in ks)
+    return any(k not in ("read", "call", "cread") for k in ks)
+
+
+def _tags(p):
+    ops = [tuple(o) for o in p["ops"]]
+    ks = [o[0] for o in ops]
+    t = ["cls:" + p["cls"], "start:" + ("complex" if np.iscomplexobj(DATA[p["data0"]]) else "real"), "len:%d" % len(ops)]
+    if p["cls"] == "MultiTapering":
+        t.append("mt:" + p.get("mt", "unity"))
+    for k in ("cread", "datalist", "data_y"):
+        if k in ks:
+            t.append("op:" + k)
+    attr = [k for k in ks if k not in ("read", "call", "cread", "sides")]
+    if attr and all(k == "detrend" for k in attr):
+        # detrend='mean' changes no estimate: a stale value could not be told from a fresh one here
+        t.append("only-detrend-assigned(no numerical effect)")
+    for i, k in enumerate(ks):
+        if k == "cread" and any(kk not in ("read", "call", "cread", "sides") for kk in ks[i + 1:]):
+            t.append("converted-read-then-setter")
+            break
+    # NFFT below the data length / 'nextpow2' at an exact power of two, followed statically through the history
+    N = len(DATA[p["data0"]])
+    for k, v in ops:
+        if k in ("data", "datalist"):
+            N = len(DATA[v])
+        elif k == "nfft" and isinstance(v, (int, np.integer)) and v < N:
+            t.append("nfft<N")
+            break
+    N = len(DATA[p["data0"]])
+    for k, v in ops:
+        if k in ("data", "datalist"):
+            N = len(DATA[v])
+        elif k == "nfft" and v == "nextpow2" and N & (N - 1) == 0:
+            t.append("nextpow2-at-power-of-two")
+            break
+    back = {"detrend": 0, "window": 0, "samp": 0, "scale": 0, "lag": 6, "ma": 2}
+    seen = set()
+    for k, v in ops:
+        if k in back:
+            if v == back[k] and k in seen:
+                t.append("set-back-to-start-value")
+                break
+            if v != back[k]:
+                seen.add(k)
+    return t
 
 
 KINDS = {
     "hist": {"impl": impl_hist, "model": model_hist, "post": post_hist, "oracle": oracle_hist, "rtol": 1e-9, "atol": 1e-300,
-             "key": _key, "nontrivial": _nontrivial,
-             "tags": lambda p: ["cls:" + p["cls"], "start:" + ("complex" if p["data0"] in (1, 3) else "real"), "len:%d" % len(p["ops"])]},
+             "key": _key, "nontrivial": _nontrivial, "tags": _tags},
 }
+
+
+def _sample(nrng, items, n):
+    if len(items) <= n:
+        return list(items)
+    idx = nrng.choice(len(items), size=n, replace=False)
+    return [items[int(i)] for i in idx]
 
 
 def gen(rng, nrng, tier):
     classes = list(CLS)
-    ex_len = 2 if tier == "quick" else 3
+    quick = tier == "quick"
+    ex_len = 2 if quick else 3
+    R = ("read", None)
+    C = ("call", None)
     for ci, cls in enumerate(classes):
-        ops = alphabet(cls)
+        core = alphabet_core(cls)
+        ext = alphabet_ext(cls)
+        ops = core + ext
+        mixed = [(o1, o2) for o1 in ops for o2 in ops if (o1 in ext or o2 in ext)]
         for data0 in (0, 1):
-            if tier == "quick":
-                # exhaustive length 1 and 2 for three classes, sampled pairs for the others
+            if quick:
+                # exhaustive length 1 (whole alphabet) and 2 (core alphabet) for three classes, sampled pairs for the others
                 full = cls in ("Periodogram", "pburg", "parma")
                 for o1 in ops:
-                    yield ("hist", {"cls": cls, "data0": data0, "ops": [o1, ("read", None)]})
-                pairs = list(itertools.product(ops, repeat=2))
+                    yield ("hist", {"cls": cls, "data0": data0, "ops": [o1, R]})
+                pairs = list(itertools.product(core, repeat=2))
                 if not full:
                     idx = nrng.choice(len(pairs), size=60, replace=False)
                     pairs = [pairs[i] for i in idx]
                 for h in pairs:
-                    yield ("hist", {"cls": cls, "data0": data0, "ops": [("call", None)] + list(h) + [("read", None)]})
+                    yield ("hist", {"cls": cls, "data0": data0, "ops": [C] + list(h) + [R]})
+                # pairs with at least one operation of the extended alphabet
+                for j, h in enumerate(_sample(nrng, mixed, 60 if full else 30)):
+                    yield ("hist", {"cls": cls, "data0": data0, "ops": ([C] if j % 3 else []) + list(h) + [R]})
             else:
                 for ln in range(1, ex_len + 1):
                     if ln == 3 and cls not in ("Periodogram", "pburg", "parma", "pcorrelogram"):
                         continue
-                    for h in itertools.product(ops, repeat=ln):
-                        yield ("hist", {"cls": cls, "data0": data0, "ops": [("call", None)] + list(h) + [("read", None)]})
-        n_rand = 40 if tier == "quick" else 400
+                    for h in itertools.product(ops if ln < 3 else core, repeat=ln):
+                        yield ("hist", {"cls": cls, "data0": data0, "ops": [C] + list(h) + [R]})
+                # length 3 with the extended alphabet: sampled
+                for j in range(600):
+                    h = [ops[int(nrng.integers(0, len(ops)))] for _ in range(3)]
+                    h[j % 3] = ext[(j // 3) % len(ext)]
+                    yield ("hist", {"cls": cls, "data0": data0, "ops": ([C] if j % 4 else []) + h + [R]})
+        # every attribute set away from its start value, the estimate read (or computed), the attribute set back, read again:
+        # the setters' equality guards must compare with the CURRENT value in both directions
+        tg = toggles(cls)
+        for data0 in (0, 1):
+            for ti, (away, back) in enumerate(tg):
+                mids = (R, C, ("cread", "centerdc"))
+                for mi, mid in enumerate(mids):
+                    if quick and (ti + ci + data0) % 3 != mi:
+                        continue
+                    b = back if back != ("data", None) else ("data", data0)
+                    yield ("hist", {"cls": cls, "data0": data0, "ops": [away, mid, b, R]})
+                    if not quick:
+                        yield ("hist", {"cls": cls, "data0": data0, "ops": [C, away, mid, b, mid, away, R]})
+        n_rand = 40 if quick else 400
         for i in range(n_rand):
             ln = int(nrng.integers(3, 13))
             h = [ops[int(nrng.integers(0, len(ops)))] for _ in range(ln)]
             if i % 3 == 0:
-                h.insert(int(nrng.integers(0, len(h))), ("read", None))
-            yield ("hist", {"cls": cls, "data0": int(nrng.integers(0, 2)), "ops": h + [("read", None)]})
+                h.insert(int(nrng.integers(0, len(h))), R)
+            yield ("hist", {"cls": cls, "data0": int(nrng.integers(0, 2)), "ops": h + [R]})
+        # start data whose length is a power of two (16, 32; real and complex): 'nextpow2' resolves to the current NFFT, NFFT = 16
+        # and 15 lie at / below the data length
+        small = [("nfft", "nextpow2"), ("nfft", 16), ("nfft", 15), ("nfft", None), ("nfft", 32), ("nfft", 33), ("data", 0), ("data", 4),
+                 ("data", 5), ("datalist", 3), ("sides", "centerdc"), ("sides", "default"), ("samp", 1), ("scale", 1), C, R,
+                 ("cread", "twosided")]
+        starts = (4, 5, 6, 7) if not quick else ((4, 5) if ci % 2 == 0 else (6, 7))
+        sp_pairs = list(itertools.product(small, repeat=2))
+        for data0 in starts:
+            for o1 in small:
+                yield ("hist", {"cls": cls, "data0": data0, "ops": [o1, R]})
+            for j, h in enumerate(_sample(nrng, sp_pairs, 10) if quick else sp_pairs):
+                yield ("hist", {"cls": cls, "data0": data0, "ops": ([C] if j % 2 else []) + list(h) + [R]})
+            for i in range(4 if quick else 60):
+                ln = int(nrng.integers(3, 9))
+                h = [(small if (i + q) % 3 else ops)[int(nrng.integers(0, len(small)))] for q in range(ln)]
+                yield ("hist", {"cls": cls, "data0": data0, "ops": h + [R]})
+    # MultiTapering with the adaptive and the eigenvalue weighting (constructor option)
+    cls = "MultiTapering"
+    ops = alphabet(cls)
+    pairs = list(itertools.product(ops, repeat=2))
+    for mi, mt in enumerate(MT_METHODS[1:]):
+        for data0 in (0, 1):
+            for o1 in ops:
+                yield ("hist", {"cls": cls, "mt": mt, "data0": data0, "ops": [o1, R]})
+            for j, h in enumerate(_sample(nrng, pairs, 24) if quick else pairs):
+                yield ("hist", {"cls": cls, "mt": mt, "data0": data0, "ops": ([C] if j % 2 == 0 else []) + list(h) + [R]})
+        for i in range(10 if quick else 150):
+            ln = int(nrng.integers(3, 11))
+            h = [ops[int(nrng.integers(0, len(ops)))] for _ in range(ln)]
+            yield ("hist", {"cls": cls, "mt": mt, "data0": (i + mi) % 2 if i % 5 else 4 + (i // 5) % 4, "ops": h + [R]})
+    # pcorrelogram with a second sequence (cross-correlogram): data_y assigned, replaced, removed
+    cls = "pcorrelogram"
+    keep, dy = alphabet_datay(cls)
+    both = keep + dy
+    dy_pairs = [(o1, o2) for o1 in both for o2 in both if (o1 in dy or o2 in dy)]
+    for data0 in (0, 1):
+        for o1 in dy:
+            yield ("hist", {"cls": cls, "data0": data0, "ops": [o1, R]})
+        for j, h in enumerate(_sample(nrng, dy_pairs, 60) if quick else dy_pairs):
+            yield ("hist", {"cls": cls, "data0": data0, "ops": ([C] if j % 3 else []) + list(h) + [R]})
+        for i in range(25 if quick else 400):
+            ln = int(nrng.integers(3, 11))
+            h = [both[int(nrng.integers(0, len(both)))] for _ in range(ln)]
+            h[int(nrng.integers(0, ln))] = dy[i % len(dy)]
+            if i % 2:
+                h.insert(int(nrng.integers(0, len(h) + 1)), dy[(i // 2) % 2])
+            yield ("hist", {"cls": cls, "data0": data0, "ops": h + [R]})
